@@ -23,7 +23,7 @@
 (* whole signal (delayed by the horizon after pastify()).  How the input   *)
 (* was cut into batches does not occur in the contract at all.             *)
 (***************************************************************************)
-EXTENDS DenseOn, Past, Norm, Json, IOUtils, TLCExt
+EXTENDS DenseOff, Past, Norm, Json, IOUtils, TLCExt
 
 Cases == JsonDeserialize(IOEnv.TRACE_FILE)
 NCases == Len(Cases)
@@ -98,6 +98,15 @@ ModelStep(m, e) ==
     ELSE [m EXCEPT !.mem = r.M, !.mout = m.mout \o Doubled(r.ret),
                    !.drift = IF differs /\ m.drift = 0 THEN m.nupd ELSE m.drift,
                    !.compared = IF differs \/ m.drift # 0 THEN m.compared ELSE m.compared + 1]
+\* offline: evaluate() is also computed by the operational model DenseOff!OffC
+ModelEval(m, e) ==
+  IF m.cfg.M.sem # "standard" \/ ~OfflineCOK(m.phi) \/ \E v \in VarsOf(m.phi) : v \notin DOMAIN e.w THEN [m EXCEPT !.modelled = FALSE]
+  ELSE
+    LET r == OffC(m.phi, [v \in VarsOf(m.phi) |-> e.w[v]], m.cfg.S) IN
+    IF r.err \/ HasUndefL(r.out) THEN [m EXCEPT !.modelled = FALSE, !.drift = IF r.err /\ e.exc = NoExc THEN 1 ELSE 0]
+    ELSE [m EXCEPT !.modelled = TRUE, !.mout = Doubled(r.out),
+                   !.drift = IF e.exc # NoExc \/ Doubled(r.out) # e.ret THEN 1 ELSE 0,
+                   !.compared = IF e.exc = NoExc /\ Doubled(r.out) = e.ret THEN m.compared + 1 ELSE m.compared]
 \* the real monitor and the operational model returned the same step function (whatever the batching of equal samples)
 SameAsModel(m) ==
   m.modelled /\ (m.emitted = <<>>) = (m.mout = <<>>) /\
@@ -148,7 +157,7 @@ ApplyEvaluate(m, e, step) ==
                                               v # NoVal /\ v # Bad /\ ((v > 0 /\ ~st[kk]) \/ (v < 0 /\ st[kk]))} IN
                    IF badk = {} THEN Ok ELSE F("evaluate.sign", step, st, e.ret)
               ELSE Ok IN
-    R(m1, f0 \o f1 \o f2 \o f3, 0)
+    R(ModelEval(m1, e), f0 \o f1 \o f2 \o f3, 0)
 
 \* online update(): C05.  Supported: no future operator in the installed AST, no bounded until (precedes)
 OnlineCtOK(p) == ~HasOp(p, {"ev", "alw", "until", "evT", "alwT", "untilT", "next", "snext", "prev", "sprev", "rise", "fall", "precT"})
@@ -268,8 +277,11 @@ Explained(c, fl) ==
   \* F-04b: dense-time offline, signals whose first time-stamp is not 0 and a bounded temporal operator: the
   \* bounded operators build their result from time 0 (the suite pins this), so the result does not start at
   \* the begin of the input domain and binary operators downstream may be misaligned
+  \* Exact where the operational model applies: the returned step function must be the one DenseOff!OffC produces.
   (IF f.clause \in {"evaluate.start", "evaluate.value"}
       /\ \E i \in 1..Len(ms) : ms[i].phase = "offline" /\ HasOp(ms[i].phi, Timed) /\ HasData(ms[i]) /\ D0(ms[i]) > 0
+      /\ \A j \in 1..Len(ms) : (ms[j].phase = "offline" /\ ms[j].phi.op # "null" /\ OfflineCOK(ms[j].phi) /\ ms[j].cfg.M.sem = "standard")
+                                  => SameAsModel(ms[j])
    THEN {"F-04b"} ELSE {}) \cup
   \* F-05c: the online counterpart: once/historically[a,b] with a > 0 (also inside since[a,b] and pastified
   \* eventually/always) produce their initial -inf/+inf segment only if the first time-stamp is 0; for a signal
